@@ -28,13 +28,58 @@ func sameRows(a, b []QRow) bool {
 }
 
 // OracleC35: on the final image (after the shutdown step) the restart returns, for every bucket, exactly
-// what the query returned just before the shutdown.
-func (h *History) OracleC35(d *Decoded, o Obs, pre []QBucket) (fails []Verdict) {
+// what the query returned just before the shutdown.  When requests were still queued at the shutdown (steps
+// of kind "enqueue") the reference is the query right after Shutdown() returned instead: the shutdown branch
+// applies the queued commands, the restart must neither lose nor repeat them.
+func (h *History) OracleC35(d *Decoded, o Obs, pre, after []QBucket) (fails []Verdict) {
 	if o.K != len(d.Evs) {
 		return nil
 	}
 	if o.Class != 0 {
 		return []Verdict{{false, "", fmt.Sprintf("restart after graceful shutdown fails: %s", o.Err)}}
+	}
+	pending := false
+	for si := range h.Steps {
+		if h.Steps[si].Kind == "enqueue" {
+			pending = true
+		}
+	}
+	when := "before shutdown"
+	if pending {
+		if after == nil {
+			return []Verdict{{false, "", "no query results after Shutdown() (the workload did not complete)"}}
+		}
+		pre, when = after, "after the shutdown completed"
+		// every queued row must have been applied by the shutdown
+		type rowKey struct {
+			epoch int64
+			vals  string
+		}
+		have := map[string]map[rowKey]int{}
+		for i := range after {
+			m := map[rowKey]int{}
+			for _, r := range after[i].Rows {
+				m[rowKey{r.Epoch, r.Vals}]++
+			}
+			have[after[i].Key] = m
+		}
+		for si := range h.Steps {
+			if h.Steps[si].Kind != "enqueue" {
+				continue
+			}
+			for _, bt := range h.Steps[si].Batches {
+				b := &h.Buckets[bt.Bucket]
+				if !b.Variable {
+					continue // a fixed slot may have been overwritten by a later queued row
+				}
+				for _, r := range bt.Rows {
+					q := rowKey{r.Epoch, hex.EncodeToString(r.Vals)}
+					if have[b.Key][q] == 0 {
+						fails = append(fails, Verdict{false, "", fmt.Sprintf("bucket %s: a row queued before the shutdown is not there after it", b.Key)})
+					}
+				}
+			}
+		}
 	}
 	post := map[string]*QBucket{}
 	for i := range o.Raw.Buckets {
@@ -51,8 +96,8 @@ func (h *History) OracleC35(d *Decoded, o Obs, pre []QBucket) (fails []Verdict) 
 		case p.Err != "":
 			// the query already failed before the shutdown: not this property's business
 		case !sameRows(p.Rows, q.Rows):
-			fails = append(fails, Verdict{false, "", fmt.Sprintf("bucket %s: %d rows before shutdown, %d after restart (or different rows)",
-				p.Key, len(p.Rows), len(q.Rows))})
+			fails = append(fails, Verdict{false, "", fmt.Sprintf("bucket %s: %d rows %s, %d after restart (or different rows)",
+				p.Key, len(p.Rows), when, len(q.Rows))})
 		}
 	}
 	return
